@@ -414,7 +414,7 @@ def gir_filename(doc):
 
 # ------------------------------------------------------------------------------ generation
 _TEXT = st.text(alphabet=st.sampled_from(list('abcXYZ 09_-.,:;/<>&"\'%\\é中\n\t')), max_size=10)
-_KIND_WEIGHTS = (['function'] * 4 + ['callback'] * 2 + ['record'] * 4 + ['union'] * 2 + ['boxed'] + ['enumeration'] * 2
+_KIND_WEIGHTS = (['function'] * 4 + ['callback'] * 3 + ['record'] * 4 + ['union'] * 2 + ['boxed'] + ['enumeration'] * 2
                  + ['bitfield'] * 2 + ['class'] * 5 + ['interface'] * 3 + ['constant'] * 3 + ['alias'] * 2)
 _NAMEBASE = {'function': 'fn', 'callback': 'Cb', 'record': 'Rec', 'union': 'Un', 'boxed': 'Bx', 'enumeration': 'En',
              'bitfield': 'Fl', 'class': 'Obj', 'interface': 'If', 'constant': 'K', 'alias': 'Al'}
@@ -454,16 +454,16 @@ class _Gen(object):
     def tri(self):
         return self.pick(_TRI)
 
-    def attrs(self, p=2):
-        if not self.chance(p):
+    def attrs(self, p=2, den=10):
+        if not self.chance(p, den):
             return []
         n = self.i(1, 3)
         return [['org.verif.a%d' % j if j else 'plain', self.draw(_TEXT)] for j in range(n)]
 
-    def info(self, el, hide=1):
+    def info(self, el, hide=1, attrs_den=10):
         el['intro'] = self.pick(['0'] * hide + ['1'] + [None] * (12 - hide)) if hide else self.pick([None] * 9 + ['1'])
-        el['dep'] = self.pick([None] * 7 + ['1', '1', '0'])
-        el['attrs'] = self.attrs()
+        el['dep'] = self.pick([None] * 14 + ['1', '1', '1', '0'])
+        el['attrs'] = self.attrs(2, attrs_den)
         return el
 
     # -- the type universe
@@ -567,7 +567,7 @@ class _Gen(object):
                 ct = ('GArray' if akind == 'GLib.Array' else 'GPtrArray') + stars
             T = {'t': 'array', 'akind': akind, 'elem': elem, 'length': None, 'fixed': None, 'zt': None, 'ctype': None if nc else ct}
             if akind == 'C':
-                m = self.i(0, 5)
+                m = self.pick([0, 1, 2, 3, 3, 4, 5])
                 if m == 0:
                     T['zt'] = '1'
                 elif m == 1:
@@ -641,7 +641,7 @@ class _Gen(object):
             else:
                 T.pop('_ca', None)
             params.append(p)
-        for j, p in enumerate(params):
+        for j, p in enumerate(list(params)):
             T = p['type']
             is_cb = T['t'] == 'iface' and self.kind_of(T['name']) == 'callback'
             if is_cb or self.chance(1, 15):
@@ -650,7 +650,12 @@ class _Gen(object):
                     p['closure'] = self.i(0, n - 1)
                 if self.chance(4):
                     p['destroy'] = self.i(0, n - 1)
-            self.fix_length(T, [k for k in range(n) if k != j and self.is_int(params[k]['type'])])
+            if T.get('_want_length') and not [k for k in range(len(params)) if k != j and self.is_int(params[k]['type'])] and len(params) < 8:
+                params.append({'name': 'n_%d' % j, 'type': {'t': 'basic', 'name': 'guint', 'ctype': 'guint*' if p['direction'] in ('out', 'inout') else 'guint'},
+                               'direction': p['direction'], 'transfer': 'none', 'nullable': None, 'allow_none': None, 'optional': None,
+                               'caller_allocates': None, 'skip': None, 'scope': None, 'closure': None, 'destroy': None, 'attrs': []})
+            self.fix_length(T, [k for k in range(len(params)) if k != j and self.is_int(params[k]['type'])])
+        n = len(params)
         if ret is None:
             if self.chance(3):
                 ret = {'t': 'basic', 'name': 'none', 'ctype': 'void'}
@@ -710,9 +715,9 @@ class _Gen(object):
 
     # -- members
     def field(self, j, owner_idx, container_kind, prior_fields):
-        f = self.info({'m': 'field', 'name': 'f%d' % j}, hide=1)
+        f = self.info({'m': 'field', 'name': 'f%d' % j}, hide=1, attrs_den=40)
         f['dep'] = None
-        f['readable'] = self.pick([None, None, None, '0', '1'])
+        f['readable'] = self.pick([None] * 8 + ['0', '1'])
         f['writable'] = self.pick([None, None, '0', '1'])
         f['private'] = self.pick([None, None, '0', '1'])
         f['bits'] = None
@@ -756,7 +761,7 @@ class _Gen(object):
         return f
 
     def property(self, j):
-        p = self.info({'m': 'property', 'name': self.pick(['prop-%d', 'p%d', 'some_prop%d']) % j}, hide=1)
+        p = self.info({'m': 'property', 'name': self.pick(['prop-%d', 'p%d', 'some_prop%d']) % j}, hide=1, attrs_den=40)
         p.update({'readable': self.pick([None, None, '0', '1']), 'writable': self.pick([None, '0', '1', '1']),
                   'construct': self.pick([None, None, '0', '1']), 'construct_only': self.pick([None, None, '0', '1']),
                   'transfer': self.pick([None, 'none', 'none', 'full', 'container']), 'setter': None, 'getter': None})
@@ -782,7 +787,7 @@ class _Gen(object):
         return s
 
     def constant(self, name, member=False):
-        k = self.info({'name': name}, hide=1)
+        k = self.info({'name': name}, hide=1, attrs_den=40 if member else 10)
         if member:
             k['m'] = 'constant'
         else:
@@ -994,7 +999,7 @@ class _Gen(object):
                 mname = self.pick(['m%d', 'val_%d', 'v-%d']) % j
                 members.append({'name': mname, 'value': str(v), 'cid': '%s_%s_M%d' % (self.idp.upper(), name.upper(), j),
                                 'nick': self.pick([None, mname.replace('_', '-')]), 'intro': None,
-                                'dep': self.pick([None, None, None, '1', '0']), 'attrs': self.attrs(1)})
+                                'dep': self.pick([None] * 8 + ['1', '1', '0']), 'attrs': self.attrs(1, 40)})
             e['members'] = members
             funcs = []
             for j in range(self.pick([0, 0, 0, 1, 2])):
@@ -1037,7 +1042,7 @@ class _Gen(object):
                 e[key] = '%s_%s_%s' % (self.symp, name.lower(), sfx) if fundamental and self.chance(8) else None
             e['type_struct'] = p.get('type_struct')
             ifs = [n for n, i in self.type_refs(('interface',))]
-            e['implements'] = list(self.draw(st.lists(st.sampled_from(ifs), max_size=3, unique=True))) if ifs and self.chance(6) else []
+            e['implements'] = list(self.draw(st.lists(st.sampled_from(ifs), max_size=3, unique=True))) if ifs and self.chance(8) else []
             self.members(e, idx, ('field', 'property', 'method', 'constructor', 'function', 'signal', 'vfunc', 'constant'))
             return e
         if k == 'interface':
